@@ -161,6 +161,12 @@ def run_case(seed):
                                             serial=rng.random() < 0.5).cook())
             fn = c11.load_recipe(rpath)
             nxt, keep_ids = pure_chef(cur, fn, new_names, kept)
+            if model_ok and any(c11.zeros_of_both_signs(d) for l in nxt.levels for d in l.data):
+                # which zero np.min / np.max return is numpy's reduction order: the byte-level comparison with the model
+                # ends here for this chain (the property oracle goes on)
+                model_ok = False
+                dist['model comparison ended: zeros of both signs in a cooked component'] = \
+                    dist.get('model comparison ended: zeros of both signs in a cooked component', 0) + 1
             if model_ok:
                 fidx = {k: i for i, k in enumerate(keys)}
                 table = []
